@@ -61,6 +61,8 @@ def check_clock(prog: Program, rep: Report) -> None:
             # initial clock: Time(0.0, 0.0) or Time.from_float(-interval)
             init = prog.resolve_method(h, "__init__")
             if init:
+                from ..normalize import canon as _canon
+                init = (init[0], _canon(prog, init[0], init[1]))      # helper functions that compute the first time read in place
                 RI = Resolver(init[1])
                 for n in ast.walk(init[1]):
                     if isinstance(n, ast.Assign) and self_attr(n.targets[0]) == "_event_time":
@@ -150,6 +152,34 @@ def analyse(src: Source) -> List[Report]:
     for cfg in cfgs:
         g = ConfigGraph(prog, cfg, cache)
         g.explore(rep, ("C17",))
+        # the number of samples written is the number of sampling times: an output handler that receives the periodic samples of a
+        # sampling event handler must not also be written by the end-of-run handler (one more record at a time that is no sampling time)
+        samplers, enders = {}, {}
+        for o in cfg.walk():
+            oh = o.get("output_handler")
+            if isinstance(oh, str) and oh:
+                if prog.is_subclass(o.cls, "SamplingEventHandler"):
+                    samplers.setdefault(oh, o)
+                elif prog.is_subclass(o.cls, "EndOfRunEventHandler"):
+                    enders.setdefault(oh, o)
+        for oh, o in enders.items():
+            rep.ob("R17.7-sample-count", oh not in samplers, Loc(cfg.file, 0, f"[{o.section}]"), f"output_handler = {oh}",
+                   f"the end-of-run event handler writes to `{oh}`, which also receives the fixed-interval samples of "
+                   f"[{samplers[oh].section if oh in samplers else ''}]: the file gets one record more than there are sampling times")
+        for oh, o in samplers.items():
+            rep.ob("R17.7-sample-count", True, Loc(cfg.file, 0, f"[{o.section}]"), f"output_handler = {oh}: written by the sampler only", "")
+    # sample files are started afresh by every run: an output handler that opens its file for appending keeps the records of an
+    # earlier (interrupted) run in front of this run's samples
+    for ci in prog.classes:
+        if not ci.file.startswith("jellyfysh/input_output_handler/output_handler/"):
+            continue
+        for mname, m in ci.methods.items():
+            for c_ in ast.walk(m):
+                if isinstance(c_, ast.Call) and isinstance(c_.func, ast.Name) and c_.func.id == "open" and len(c_.args) >= 2 \
+                        and isinstance(c_.args[1], ast.Constant) and isinstance(c_.args[1].value, str):
+                    mode = c_.args[1].value
+                    rep.ob("R17.7-files-start-empty", "a" not in mode or "r" in mode, Loc(ci.file, c_.lineno, f"{ci.name}.{mname}"), c_,
+                           f"an output file is opened with mode `{mode}`: records left by an earlier run stay in front of this run's samples")
     rep.unit("config_files", len(cfgs))
     rep.expect_min("R17.1-sliced-out-state", 2)
     rep.expect_min("R17.2-active-state-argument", 2)
@@ -160,6 +190,9 @@ def analyse(src: Source) -> List[Report]:
     rep.expect_min("R17.5-get-arguments-unique", 15)
     rep.expect_min("R17.5-mediate-unique", 15)
     rep.expect_min("R17.6-self-clocked-create", 100)
+    # the sampled state is what the commits wrote: a skipped write leaves a unit at an earlier time stamp (insertion rule of C13)
+    from .c13 import check_insert_complete
+    check_insert_complete(prog, rep)
     return [rep]
 
 
